@@ -649,6 +649,47 @@ def c06_stream_clause(spec, acc):
             msgs.append(exp)
             spans.append((len(packets), len(pk)))
             packets.extend(pk)
+        # messages whose payload happens to spell a byte string that the code under test mentions literally (a gateway
+        # notice, a marker): data is data - such a packet is cut out and delivered like any other
+        if rep % 2 == 0:
+            lits = [b for b in gen.harvested_byte_strings() if 3 <= len(b) <= 8]
+            single = [d for d in defs if d.type == "Single" and (d.length or 9) <= 8 and d.fixed_layout]
+            for lit in rng.sample(lits, min(len(lits), 6)):
+                for attempt in range(40):
+                    d = rng.choice(single)
+                    off = rng.randrange(0, d.length - len(lit) + 1) if d.length >= len(lit) else None
+                    if off is None:
+                        continue
+                    pb_ = bytearray(dbx.pack(d, gen.base_raws(d, rng, dbx)).to_bytes(d.length, "little"))
+                    pb_[off:off + len(lit)] = lit if attempt % 2 == 0 else lit[::-1]
+                    if spec["client"] == "usb" and b"\xaa\x55" in bytes(pb_):
+                        continue
+                    if dbx.select(d.pgn, int.from_bytes(pb_, "little")) is not d:
+                        continue
+                    try:
+                        m = src_dec.decode_basic_string(wire.plain_line(3, d.pgn, 7, 255, bytes(pb_)), already_combined=True)
+                        if m is None:
+                            continue
+                        m.source, m.destination, m.priority = rng.randrange(1, 250), 255, rng.randrange(8)
+                        pk = {"ebyte": enc.encode_ebyte, "yd": enc.encode_yacht_devices, "usb": enc.encode_usb}[spec["client"]](m)
+                        codec = bytes.fromhex((enc.encode_actisense(m).split() + [""])[2])
+                        if lit not in codec and lit[::-1] not in codec:
+                            continue
+                        exp = src_dec.decode_basic_string(wire.plain_line(m.priority, d.pgn, m.source, 255, codec), already_combined=True)
+                    except Exception:  # noqa: BLE001
+                        continue
+                    if spec["client"] == "yd":
+                        pk = [b"00:00:00.000 R " + p for p in pk]
+                    if spec["client"] == "usb" and any(b"\xaa\x55" in p[2:] for p in pk):
+                        continue
+                    at = rng.randrange(len(msgs) + 1)
+                    pos_ = sum(spans[j][1] for j in range(at)) if at < len(spans) else len(packets)
+                    msgs.insert(at, exp)
+                    spans.insert(at, (pos_, len(pk)))
+                    packets[pos_:pos_] = pk
+                    spans[:] = [(sum(n_ for _, n_ in spans[:j]), n_) for j, (_, n_) in enumerate(spans)]
+                    acc.count("stream_messages_spelling_a_harvested_literal")
+                    break
         stream = b"".join(packets)
         cuts = sorted(rng.sample(range(1, max(2, len(stream))), min(len(stream) - 1, rng.choice([0, 1, 5, 20])))) if len(stream) > 2 else []
         if rep % 3 == 1:
